@@ -1,7 +1,7 @@
 (* C25 — property theorems (statements only; proofs by [exact] of lemmas in Proofs.v). *)
 From Coq Require Import Reals QArith Qreals List.
 From Coquelicot Require Import Coquelicot.
-From OMV Require Import C25.Model C25.Proofs.
+From OMV Require Import C25.Model C25.Proofs C25.ProofsRho.
 Import ListNotations.
 Open Scope R_scope.
 
@@ -109,3 +109,16 @@ Theorem C25_extremum_rational : forall l,
   maxl (map Q2R l) = Q2R (maxlQ l) /\ minl (map Q2R l) = Q2R (minlQ l).
 Proof. intro l. split; [exact (maxl_map_Q2R l) | exact (minl_map_Q2R l)]. Qed.
 Print Assumptions C25_extremum_rational.
+
+(* derivative of KSfunction.compute with respect to rho, for every non-empty list and rho > 0 *)
+Theorem C25_ks_drho : forall rho g,
+  g <> [] -> 0 < rho -> is_derive (fun r => KS r g) rho (KS_drho_true rho g).
+Proof. exact ks_drho. Qed.
+Print Assumptions C25_ks_drho.
+
+(* KSfunction.derivatives()[1] as written (KS_drho_code) omits - ln(summation) / rho^2: it is not that
+   derivative (witness: two equal entries, rho = 1); see props/C25/FINDINGS.md *)
+Theorem C25_ks_drho_code_refuted :
+  exists rho g, g <> [] /\ 0 < rho /\ ~ is_derive (fun r => KS r g) rho (KS_drho_code rho g).
+Proof. exact ks_drho_code_refuted. Qed.
+Print Assumptions C25_ks_drho_code_refuted.
